@@ -212,7 +212,7 @@ def preimage_lengths(ctx, case):
     sf = fields(seed)
     pre = preimages(seed, ln)
     n = 0
-    sizes = (1, 2, 8, 15, 16, 17, 20, 31, 32, 33, 64) if 'shake' in kind and ln in (1, 16, 32, 64) else (20,)
+    sizes = (1, 2, 8, 15, 16, 17, 20, 31, 32, 33, 63, 64, 65, 96, 126, 127) if 'shake' in kind and ln in (1, 16, 32, 64) else (20,)
     for hs in sizes:
         lock = build_lock(kind, pk, pre['right'], 1000, hash_size=hs)
         # lock built from the digest instead of the preimage is the same lock
@@ -393,7 +393,7 @@ def blocks(tier, seed):
         Block('custom_slack_threshold', [(k, thr) for k in KINDS for thr in (10, 61, 600, 0, -1)], threshold_case,
               'lock kind x verifier ts_threshold {10, 61, 600, 0, -1} x path x t=deadline-1..+1 x t-now around the threshold', nshards=30),
         Block('time_grid', tg, time_grid, 'lock kind x signer x preimage choice x timeout {0,1,86400,-1,-86400} x t=deadline-1..+1 x t-now in {59, 60, 61, -61, -3600}', nshards=len(tg)),
-        Block('preimage_lengths', pl, preimage_lengths, 'preimage lengths %s x right/wrong x signer; SHAKE digest sizes 1,2,8,15,16,17,20,31,32,33,64; before and at the deadline' %
+        Block('preimage_lengths', pl, preimage_lengths, 'preimage lengths %s x right/wrong x signer; SHAKE digest sizes 1,2,8,15,16,17,20,31,32,33,63,64,65,96,126,127; before and at the deadline' %
               ('1..64'), nshards=min(len(pl), 128)),
         Block('ptlc_tweak_scalars', tweak_scalars(seed), ptlc_tweaks, 'tweak scalars {1, L-1, clamped, unclamped, 2^254+} x witness kinds x signers', nshards=5),
         Block('sigflags_and_fields', fl, flags_case, 'flag/allowed pairs (every single bit permitted / alone not permitted, mixed patterns) x covered / excluded field changes, both paths', nshards=min(len(fl), 256)),
